@@ -228,6 +228,71 @@ func TestC09(t *testing.T) {
 		r.Exhaustive("cells", !r.Replaying())
 	}
 
+	// objects whose ids differ, or whose types differ, are never equal: every ordered pair of Go types, minimal and populated values
+	if r.WantLayer("cross-type", true) {
+		n := 0
+		mk := func(st reflect.Type, id string, typ ap.ActivityVocabularyType, full bool) ap.Item {
+			var x ap.Item
+			if full {
+				x = vocab.Everything(st, true)
+			} else {
+				x = reflect.New(st).Interface().(ap.Item)
+			}
+			sv, _ := vocab.StructOf(x)
+			sv.FieldByName("ID").SetString(id)
+			sv.FieldByName("Type").SetString(string(typ))
+			return x
+		}
+		for _, a := range vocab.StructTypes {
+			for _, b := range vocab.StructTypes {
+				for _, full := range []bool{false, true} {
+					for _, variant := range []string{"ids-differ", "types-differ"} {
+						if a.Name() == "Link" || b.Name() == "Link" {
+							continue // the clause speaks of objects
+						}
+						ta, tb := vocab.DefaultType[a.Name()], vocab.DefaultType[b.Name()]
+						ida, idb := "https://example.com/things/1", "https://example.com/things/2"
+						if variant == "types-differ" {
+							idb = ida
+							if ta == tb {
+								found := false
+								for _, n := range vocab.NamesFor(b.Name()) {
+									if n != ta {
+										tb, found = n, true
+										break
+									}
+								}
+								if !found {
+									continue
+								}
+							}
+						}
+						cell := fmt.Sprintf("%s vs %s full=%v %s", a.Name(), b.Name(), full, variant)
+						if !r.WantCell(cell) {
+							continue
+						}
+						n++
+						x, y := mk(a, ida, ta, full), mk(b, idb, tb, full)
+						r.Case(cell, true, "cross-type "+variant)
+						for _, ord := range []string{"x,y", "y,x"} {
+							p, q := x, y
+							if ord == "y,x" {
+								p, q = y, x
+							}
+							if res, key, detail := c09Equal(p, q); key != "" {
+								r.Report("cross-type", cell, key, detail, cell)
+							} else if res {
+								r.Report("cross-type", cell, fmt.Sprintf("eq distinct %s %s-vs-%s", variant, a.Name(), b.Name()), fmt.Sprintf("two objects whose %s are equal (%s): %s and %s", variant, ord, clipStr(vocab.Dump(p), 150), clipStr(vocab.Dump(q), 150)), cell)
+							}
+						}
+					}
+				}
+			}
+		}
+		r.Cells(n, n)
+		r.Exhaustive("cross-type", !r.Replaying())
+	}
+
 	r.Rapid(t, "random", r.Pick(5000, 40000), func(t *rapid.T) {
 		depth := rapid.IntRange(0, r.Pick(3, 4)).Draw(t, "depth")
 		g := vocab.NewGen(t, vocab.Opts{MaxDepth: depth, Gob: true, ValueForms: true})
@@ -362,6 +427,22 @@ func TestC09(t *testing.T) {
 					}
 				}
 			}
+		}
+		// law 5: an independently generated object (all ids are fresh) is never equal to x
+		if sv, ok := vocab.StructOf(x); ok && sv.FieldByName("ID").Len() > 0 && sv.Type().Name() != "Link" && rapid.IntRange(0, 2).Draw(t, "distinct-pair") == 0 {
+			z := g.Value(rapid.SampledFrom(goTypeNames[:13]).Draw(t, "othertype"), 1, false)
+			for _, ord := range []string{"x,z", "z,x"} {
+				a, b := x, z
+				if ord == "z,x" {
+					a, b = z, x
+				}
+				if res, key, detail := c09Equal(a, b); key != "" {
+					add(key+" "+ord, detail)
+				} else if res {
+					add(fmt.Sprintf("eq distinct ids-differ %s-vs-%s", vocab.GoTypeName(x), vocab.GoTypeName(z)), fmt.Sprintf("two objects with different ids are equal (%s); other = %s", ord, clipStr(vocab.Dump(z), 400)))
+				}
+			}
+			law += "+distinct"
 		}
 		labels := append(ft.Labels("random"), "random law="+law, "random feature="+c09Feature(x))
 		_, isIRI := x.(ap.IRI)
